@@ -31,6 +31,7 @@ func vRecords(tag string) [][]string {
 	return recs
 }
 
+// htpasswd Validate concurrent with a reload is free of data races (happens-before query)
 // verif: unwind=6 strlen=12 race
 func vh_C20_htpasswd_race() {
 	h := &htpasswdMap{users: map[string]interface{}{"alice": sha1Pass("W6ph5Mm5Pz8GgiULbPgzG37mj9g=")}}
@@ -50,6 +51,7 @@ func vh_C20_htpasswd_race() {
 	verifReach("end")
 }
 
+// htpasswd GetUsers concurrent with a reload is free of data races
 // verif: unwind=6 strlen=12 race
 func vh_C20_htpasswd_race_getusers() {
 	h := &htpasswdMap{users: map[string]interface{}{"alice": sha1Pass("W6ph5Mm5Pz8GgiULbPgzG37mj9g=")}}
